@@ -97,7 +97,7 @@ InitState(cfg, actors) ==
    stats |-> [hits |-> 0, misses |-> 0, added |-> 0, deleted |-> 0, updated |-> 0, rejected |-> 0,
               wadd |-> 0, wrem |-> 0, aadd |-> 0, adrop |-> 0],
    shut |-> FALSE, keepS |-> TRUE, keepC |-> TRUE,
-   now |-> cfg.clock0, nextId |-> 1, nextAck |-> 1, opack |-> EmptyFn,
+   now |-> cfg.clock0, nextId |-> 1, nextAck |-> 1, opack |-> EmptyFn, cmds |-> EmptyFn,
    buf |-> [i \in 1..cfg.pool |-> <<>>], chan |-> <<>>,
    pc |-> [a \in actors |-> CASE a = "worker" -> "W_Recv" [] a = "sweeper" -> "S_Tick"
                                 [] a = "consumer" -> "R_Recv" [] OTHER -> "C_Idle"],
@@ -197,7 +197,7 @@ Eff_C_Send(S, a, inp) ==
        Out(Goto([S EXCEPT !.nextAck = n + 1], a, after, IF after = "C_Idle" THEN NoLc ELSE L),
            [NoRet EXCEPT !.st = StErr])
   ELSE Out(Goto([S EXCEPT !.queue = Append(@, c), !.ack = With(@, n, [done |-> FALSE, st |-> StPending]),
-                          !.nextAck = n + 1,
+                          !.nextAck = n + 1, !.cmds = With(@, n, c),
                           !.opack = IF L.op.op = "shutdown" THEN @ ELSE With(@, L.op.id, n)],
                 a, after, IF after = "C_Idle" THEN NoLc ELSE L),
            IF after = "C_Idle" THEN [NoRet EXCEPT !.st = StPending, !.ack = n] ELSE NoRet)
